@@ -233,8 +233,48 @@ func cmdVC(args []string) {
 
 // closureOf computes the package-local call-graph closure of the given roots (static calls, closures,
 // and interface invokes resolved to every package method of that name implementing the interface).
+// addressTaken: package functions and closures whose value is taken somewhere in the package (candidates for
+// calls through function values).
+func addressTaken(d *Driver) []*ssa.Function {
+	set := map[*ssa.Function]bool{}
+	for _, fn := range d.fns {
+		for _, b := range fn.Blocks {
+			for _, ins := range b.Instrs {
+				var ops []*ssa.Value
+				for _, op := range ins.Operands(ops) {
+					if op == nil || *op == nil {
+						continue
+					}
+					var tf *ssa.Function
+					switch x := (*op).(type) {
+					case *ssa.Function:
+						tf = x
+					case *ssa.MakeClosure:
+						tf, _ = x.Fn.(*ssa.Function)
+					}
+					if tf == nil || tf.Pkg != d.pkg {
+						continue
+					}
+					if ci, ok := ins.(ssa.CallInstruction); ok && ci.Common().Value == *op {
+						if _, isClo := (*op).(*ssa.MakeClosure); !isClo {
+							continue
+						}
+					}
+					set[tf] = true
+				}
+			}
+		}
+	}
+	var out []*ssa.Function
+	for f := range set {
+		out = append(out, f)
+	}
+	return out
+}
+
 func closureOf(d *Driver, roots []string) []string {
 	seen := map[string]bool{}
+	taken := addressTaken(d)
 	var visit func(fn *ssa.Function)
 	visit = func(fn *ssa.Function) {
 		if fn == nil || fn.Pkg != d.pkg || len(fn.Blocks) == 0 {
@@ -281,6 +321,16 @@ func closureOf(d *Driver, roots []string) []string {
 					visit(f)
 				case *ssa.MakeClosure:
 					visit(f.Fn.(*ssa.Function))
+				case *ssa.Builtin:
+				default:
+					// a call through a function value: every address-taken package function of that signature
+					if sig, ok := cc.Value.Type().Underlying().(*types.Signature); ok {
+						for _, tf := range taken {
+							if types.Identical(tf.Signature.Underlying(), sig) || sameParams(tf.Signature, sig) {
+								visit(tf)
+							}
+						}
+					}
 				}
 				for _, a := range cc.Args {
 					if f, ok := a.(*ssa.Function); ok {
@@ -302,4 +352,9 @@ func closureOf(d *Driver, roots []string) []string {
 	}
 	sort.Strings(out)
 	return out
+}
+
+// sameParams: signatures equal up to the receiver / free variables (bound methods and closures).
+func sameParams(a, b *types.Signature) bool {
+	return types.Identical(types.NewSignatureType(nil, nil, nil, a.Params(), a.Results(), a.Variadic()), types.NewSignatureType(nil, nil, nil, b.Params(), b.Results(), b.Variadic()))
 }
